@@ -96,7 +96,7 @@ func genJSONText(t *rapid.T, depth int) string {
 }
 
 func genJSONStringText(t *rapid.T) string {
-	return rapid.SampledFrom([]string{`""`, `"a"`, `"2.0"`, `"ret"`, `"k"`, `"id"`, `"method"`, `"A"`, `"é"`, `"😀"`, `"\ud800"`, "\"\xff\"", `"a\nb"`, `"rpc.x"`, `"jsonrpc"`, `"code"`, `"Message"`}).Draw(t, "s")
+	return rapid.SampledFrom([]string{`""`, `"a"`, `"2.0"`, `"ret"`, `"k"`, `"id"`, `"method"`, `"A"`, `"é"`, `"😀"`, `"\ud800"`, "\"\xff\"", `"a\nb"`, `"rpc.x"`, `"rpc."`, `"jsonrpc"`, `"code"`, `"Message"`}).Draw(t, "s")
 }
 
 func InboundRecord(t *rapid.T) string {
